@@ -139,9 +139,8 @@ def check(rep, need=('GuardedInsert', 'Erase'), rewrites=False):
                     a, b = [strip(x, casts=True) for x in kids(core)]
                     for x, y in ((a, b), (b, a)):
                         if is_call(x, 'getTupleId') and y['k'] == 'IntegerLiteral' and y['val'] == '0':
-                            o = call_obj(x)
-                            return o is not None and src in o.get('t', '').replace('Index' + src, '#') or (
-                                o is not None and ('ram::' + src + ' ') in o.get('t', '') + ' ')
+                            o = strip(call_obj(x), casts=True) if call_obj(x) is not None else None
+                            return o is not None and ('ram::' + src + ' ') in o.get('t', '') + ' '
                     return False
                 ok, why = guarded_by(g, n, is_tid0)
                 rep.ob('C03R1-outermost-only', 'parallelizeOperations/%s' % t, ok, g.loc(n),
